@@ -17,6 +17,6 @@ def run(rep):
                      'never change (obligation yield.ok3/loop invariant of _match_all_clauses); retract removes a fact only if it is '
                      'still in the current list and publishes current minus that fact (yield.ok5-ok9)' % len(own))
     q = rep.tier == 'quick'
-    fw.standin(rep, 'difftest.py', ['run', 'F4', rep.seed + 7, 1500 if q else 25000],
+    fw.standin(rep, 'difftest.py', ['run', 'F4', rep.seed + 7, 6000 if q else 40000],
                'interleaved modification during enumeration (drain loops, counter update loops, assert during own enumeration)',
                'random F4 programs and API histories incl. modification during suspended enumerations')
